@@ -49,13 +49,14 @@ class Prog:
         return "\n".join(out) + "\n"
 
 
-LOOPREGS = [f"s{x}{d}" for d in (0, 1) for x in "abcnsde"]
+LOOPREGS = [f"s{x}{d}" for d in (0, 1) for x in "abcnsdeq"]
 
 
 def fmt_op(o):
     if isinstance(o, tuple):
         if o[0] == "mem":
-            _, t, disp, base, index, scale = o
+            _, t, disp, base, index, scale = o[:6]
+            alias = o[6] if len(o) > 6 else None
             s = f"{t}:"
             if disp != 0 or (base is None and index is None):
                 s += str(disp)
@@ -66,6 +67,8 @@ def fmt_op(o):
                     if scale != 1:
                         s += f", {scale}"
                 s += ")"
+            if alias:
+                s += ":" + alias
             return s
         if o[0] == "d":
             return repr(float(o[1]))
@@ -155,7 +158,7 @@ class FuncGen:
     # ---------------------------------------------------------------- straight-line pieces
     def gen_int(self):
         r = self.r
-        k = r.below(19)
+        k = r.below(20)
         d = self.ireg()
         if k <= 2:
             self.emit(r.choice(INT3), d, self.isrc(), self.isrc()); self.stat("int3")
@@ -273,6 +276,26 @@ class FuncGen:
                 self.emit("mov", nm, self.isrc())
                 self.emit("mov", d, ("mem", wt, off, base, None, 1))
             self.stat("overlap_access")
+        elif k == 19 and self.o["mem"] and self.o["alloca"]:
+            # alias-annotated accesses to the alloca block: every word has its own alias name (accesses with
+            # different non-zero alias names never overlap: true here), mixed with unannotated accesses to the
+            # same word (alias 0 may alias anything) -- the cases may_alias_p has to tell apart
+            off1, off2 = 8 * r.below(8), 8 * r.below(8)
+            a1 = ("mem", "i64", off1, "tal", None, 1, f"w{off1}")
+            u1 = ("mem", "i64", off1, "tal", None, 1)
+            a2 = ("mem", "i64", off2, "tal", None, 1, f"w{off2}")
+            form = r.below(4)
+            self.emit("mov", a1, self.isrc())
+            if form == 0:      # annotated store, unannotated store to the same word, annotated reload
+                self.emit("mov", u1, self.isrc())
+            elif form == 1:    # unannotated then annotated
+                self.emit("mov", u1, self.isrc()); self.emit("mov", a1, self.isrc())
+            elif form == 2:    # another word under its own name in between
+                self.emit("mov", a2, self.isrc())
+            else:              # same name twice
+                self.emit("mov", a1, self.isrc())
+            self.emit("mov", d, a1 if r.chance(2, 3) else u1)
+            self.stat("alias_access")
         else:
             self.emit(r.choice(INT3), d, self.ireg(), self.ireg()); self.stat("int3")
 
@@ -368,7 +391,7 @@ class FuncGen:
         r = self.r
         dep = self.loopdepth
         self.loopdepth += 1
-        sa, sb, sc, sn, ss, sd, se = (f"s{x}{dep}" for x in "abcnsde")
+        sa, sb, sc, sn, ss, sd, se, sq = (f"s{x}{dep}" for x in "abcnsdeq")
         head, skip, skipd = self.lab("LH"), self.lab("LS"), self.lab("LD")
         gdiv = r.chance(1, 2)   # a guarded division by a loop-invariant, possibly zero divisor (must not be hoisted)
         if gdiv:
@@ -377,7 +400,15 @@ class FuncGen:
         self.emit("mov", sa, self.isrc()); self.emit("mov", sb, self.isrc()); self.emit("mov", sc, self.isrc())
         self.emit("mov", ss, 0)
         self.emit("mov", sn, 1 + r.below(5))
+        walk = self.o["mem"] and self.o["alloca"] and r.chance(1, 2)   # loop-carried pointer; an address derived from
+        if walk:                                                        # it inside the loop is used after the loop
+            self.emit("mov", sq, "tal")
+            self.emit("mov", "tb", "tal")
         self.emit("label", head)
+        if walk:
+            self.emit("add", "tb", sq, 8 * r.below(3))
+            if r.chance(1, 2):
+                self.emit("xor", ss, ss, ("mem", "i64", 0, "tb", None, 1))
         self.emit("mul", ss, ss, 10)
         self.emit(r.choice(["add", "xor", "sub"]), ss, ss, r.choice([sa, sb]))
         form = r.below(4)
@@ -406,15 +437,23 @@ class FuncGen:
             self.stat("guarded_div")
         if r.chance(2, 3):   # several blocks in the loop
             self.emit(r.choice(BCMP), skip, self.ireg(), self.isrc())
-            if r.chance(1, 2):
+            if walk or r.chance(1, 2):   # (nothing that could redirect tb while the pointer walk uses it)
                 self.emit("add", ss, ss, 0)
             else:
                 self.body_insns(1 + r.below(2))
             self.emit("label", skip)
+        if walk:
+            self.emit("add", sq, sq, 8)
         self.emit("sub", sn, sn, 1)
         self.emit("bgt", head, sn, 0)
         d = self.ireg()
         self.emit("mov", d, ss)
+        if walk:
+            if r.chance(1, 2):
+                self.emit("xor", d, d, ("mem", "i64", 0, "tb", None, 1))
+            else:
+                self.emit("mov", ("mem", "i64", 0, "tb", None, 1), self.ireg())
+            self.stat("loop_ptr_walk")
         if r.chance(1, 3):
             self.emit("xor", d, d, r.choice([sa, sb, sc]))
         self.loopdepth -= 1
